@@ -54,6 +54,9 @@ type Violation struct {
 	Label   string
 	Tags    []string
 	Kind    string // "assert", "panic", "race", "deadlock", "fail"
+	// Schedule is set when the path ran more than one goroutine: the counterexample includes the
+	// interleaving chosen by the executor, which a native replay cannot force.
+	Schedule bool
 	Detail  string
 	Inputs  map[string]uint64
 	Kinds   map[string]string
@@ -515,7 +518,7 @@ func (p *Path) addViolation(kind, label, detail string, m Model) {
 	if kind == "panic" && p.panicTrace != "" {
 		detail += " | at " + p.panicTrace
 	}
-	v := &Violation{Harness: p.h.Name, Label: label, Kind: kind, Detail: detail, Tags: append([]string{}, p.tags...),
+	v := &Violation{Harness: p.h.Name, Label: label, Kind: kind, Detail: detail, Tags: append([]string{}, p.tags...), Schedule: p.sched != nil && len(p.sched.gs) > 1,
 		Inputs: vals, Kinds: kinds, Order: order, Trail: p.trailString()}
 	p.viols = append(p.viols, v)
 }
